@@ -52,7 +52,20 @@ Theorem C04_fdr_control : forall alpha ri, (0 <= alpha)%Q ->
 Proof. exact fdr_control. Qed.
 Print Assumptions C04_fdr_control.
 
-(* the accept set of fd_fdp is the one obtained from the C01 q-values: exhaustive for all arrangements
+(* the accept set of the theorem is exactly the set of targets whose C01 q-value (tdc_core) is within
+   alpha, for every list, labelling and alpha < 1 (for alpha >= 1 the bound FDP <= 1 <= alpha is trivial) *)
+Theorem C04_accept_set_is_tdc : forall alpha ri w, (alpha < 1)%Q -> length w = fd_count_n ri ->
+  (fdp_via_tdc alpha ri w == fd_fdp alpha ri w)%Q.
+Proof. exact via_tdc_is_fdp. Qed.
+Print Assumptions C04_accept_set_is_tdc.
+
+(* hence: E[FDP] <= alpha for the FDP of 'targets with C01 q-value <= alpha' *)
+Theorem C04_fdr_control_tdc : forall alpha ri, (0 <= alpha)%Q -> (alpha < 1)%Q ->
+  (fd_qsum (map (fdp_via_tdc alpha ri) (fd_labs (fd_count_n ri))) <= alpha * inject_Z (Z.of_nat (2 ^ fd_count_n ri)))%Q.
+Proof. exact fdr_control_tdc. Qed.
+Print Assumptions C04_fdr_control_tdc.
+
+(* the same, re-checked by computation: exhaustive for all arrangements
    of up to 6 positions, all labellings, alpha in {1/100, 1/10, 1/4, 1/3, 1/2, 2/3, 9/10} (bounded: the
    general statement is not proved; the correspondence check repeats it against the real tdc) *)
 Theorem C04_accept_set_is_tdc_bounded : bridge_sweep 6 = true.
